@@ -1276,17 +1276,17 @@ fn main() {
             let mut out = String::new();
             // a loaded machine can make session creation or a request time out: that says nothing
             // about the property; the history is re-run from scratch (fresh cluster and session)
-            for attempt in 0..4u64 {
+            for attempt in 0..8u64 {
                 let h = tokio::spawn(run_case(c.clone()));
                 out = match h.await {
                     Ok(o) => o,
                     Err(e) => format!("error panic {}", e),
                 };
-                let env = out.starts_with("error session") || out.starts_with("error start-cluster") || out.contains("RequestTimeout") || out.contains("BrokenConnection") || out.contains("ConnectionPoolError");
+                let env = out.starts_with("error session") || out.starts_with("error start-cluster") || out.contains("RequestTimeout") || out.contains("BrokenConnection") || out.contains("ConnectionPoolError") || out.contains("AddrInUse");
                 if !env {
                     break;
                 }
-                tokio::time::sleep(Duration::from_millis(200 * (attempt + 1))).await;
+                tokio::time::sleep(Duration::from_millis(400 * (attempt + 1))).await;
             }
             (line, out)
         }))
